@@ -26,7 +26,7 @@ SCENARIOS = [
     sc(1, 4, ("quick", "thorough")),
     sc(2, 4, ("quick", "thorough")),
     sc(2, 5, ("quick", "thorough")),
-    sc(2, 6, ("thorough",)),
+    sc(2, 6, ("quick", "thorough")),
     sc(3, 5, ("quick", "thorough")),
     sc(3, 5, ("quick", "thorough"), parallel=False),
     sc(3, 6, ("thorough",)),
@@ -37,6 +37,11 @@ SCENARIOS = [
          expect_obligations=EO[:2], bounds="ThrowEventSatisfier, 2 definitions, all histories of length 4"),
     dict(name="C14 throw-event counterpart n=3 L=5", entry="VerifC14_Throw3_L5", harness="logic", K=25, reach=["end"], tiers=("thorough",),
          expect_obligations=EO[:2], bounds="ThrowEventSatisfier, 3 definitions, all histories of length 5"),
+    dict(name="C14 parallel-multiple n=2, 4 events from any nested state", entry="VerifC14_From2_L4", harness="logic", K=30, reach=["pre-state", "end"], tiers=("thorough",),
+         expect_obligations=EO[:3],
+         bounds="2 definitions; pre-state: any of the 7 families of k <= 3 open chains (all equal, non-empty, not full; reachable without a completion); then all histories of length 4 (histories of length up to 7 from the empty state)"),
+    dict(name="C14 parallel-multiple n=2, 5 events from any nested state", entry="VerifC14_From2_L5", harness="logic", K=30, reach=["pre-state", "end"], tiers=("thorough",),
+         expect_obligations=EO[:3], bounds="as above, histories of length 5"),
     dict(name="C14 parallel-multiple n=3, 2 events from any nested state", entry="VerifC14_From3_L2", harness="logic", K=30, reach=["pre-state", "end"],
          expect_obligations=EO[:3],
          bounds="3 definitions; pre-state: any of the 37 families of k <= 3 open chains nested in list order, non-empty, not full (each reachable from the empty satisfier without a completion, see harness); then all histories of length 2"),
